@@ -61,20 +61,32 @@ func listed(data []byte) int {
 	return len(evs)
 }
 
+// logIndexDigest covers where the logs say they come from (transaction index per log): stored with the receipts and
+// served to log subscribers, but not part of the receipt trie.
+func logIndexDigest(rs types.Receipts) string {
+	var sb strings.Builder
+	for i, r := range rs {
+		for _, l := range r.Logs {
+			fmt.Fprintf(&sb, "%d:%d;", i, l.TxIndex)
+		}
+	}
+	return short(crypto.Keccak256Hash([]byte(sb.String())))
+}
+
 func builtFields(blk *types.Block, rs types.Receipts) map[string]interface{} {
 	h := blk.Header()
 	return map[string]interface{}{
 		"root": short(h.Root), "vroot": short(h.ValRoot), "sroot": short(h.StakingRoot), "rcpt": short(h.ReceiptHash),
 		"bloom": short(crypto.Keccak256Hash(h.Bloom.Bytes())), "gas": h.GasUsed, "gr": fixture.I(h.GasRewards),
 		"sub": fixture.I(h.Subsidy), "slash": short(crypto.Keccak256Hash(h.SlashData)), "nslash": listed(h.SlashData),
-		"logs": logsDigest(rs), "stat": statusDigest(rs), "ntx": len(blk.Transactions()),
+		"logs": logsDigest(rs), "stat": statusDigest(rs), "lidx": logIndexDigest(rs), "ntx": len(blk.Transactions()),
 	}
 }
 
 // rerun executes blk with the import path's executor on a fresh StateDB opened on the parent's roots of node n, whose head
 // must still be the parent.  variant selects how the state object and its caches are obtained.
 func rerun(w *sd.World, n *sd.Node, blk *types.Block, variant int, rnd *rand.Rand) (out map[string]interface{}) {
-	out = map[string]interface{}{"root": "", "vroot": "", "sroot": "", "rcpt": "", "bloom": "", "gas": 0, "logs": "", "stat": ""}
+	out = map[string]interface{}{"root": "", "vroot": "", "sroot": "", "rcpt": "", "bloom": "", "gas": 0, "logs": "", "stat": "", "lidx": ""}
 	defer func() {
 		if r := recover(); r != nil {
 			out["err"] = "panic: " + fmt.Sprint(r)
@@ -125,7 +137,7 @@ func rerun(w *sd.World, n *sd.Node, blk *types.Block, variant int, rnd *rand.Ran
 	bloom := types.CreateBloom(res.Recs)
 	out["bloom"] = short(crypto.Keccak256Hash(bloom.Bytes()))
 	out["gas"] = res.UsedGas
-	out["logs"], out["stat"] = logsDigest(res.Recs), statusDigest(res.Recs)
+	out["logs"], out["stat"], out["lidx"] = logsDigest(res.Recs), statusDigest(res.Recs), logIndexDigest(res.Recs)
 	return
 }
 
@@ -227,7 +239,7 @@ func run(env *drive.Env) error {
 				imp["errc"] = errClass(fmt.Sprint(imp["err"]))
 				imp["head"] = w.B.Bc.CurrentBlock().Hash() == blk.Hash()
 				brs := w.B.Bc.GetReceiptsByHash(blk.Hash())
-				imp["rcpt"], imp["logs"], imp["stat"] = short(types.DeriveSha(brs)), logsDigest(brs), statusDigest(brs)
+				imp["rcpt"], imp["logs"], imp["stat"], imp["lidx"] = short(types.DeriveSha(brs)), logsDigest(brs), statusDigest(brs), logIndexDigest(brs)
 				_ = rs
 				env.Emit(imp)
 				if imp["err"] != "" || dberr != "" {
